@@ -163,19 +163,6 @@ REF_DEFS = {"MR": f"lambda i: isinstance(resolved_full_cites[i][0], FullCaseCita
 
 
 
-@spec("metadata_wf")
-def _metadata_wf(e, st, c):
-    """class invariant established by CitationBase.__post_init__: type(c.metadata) is type(c).Metadata"""
-    from pyvc.values import class_of
-    md = e.load_field(st, c, "metadata")
-    cases = []
-    for cname, ci in e.repo.classes.items():
-        if "CitationBase" in e.repo.mro(cname) and not cname.endswith(".Metadata"):
-            mc = e.repo.metadata_class(cname)
-            cases.append(Implies(class_of(c.v) == ci.cid, class_of(md.v) == e.repo.classes[mc].cid))
-    return SV(BOOL, And(Not(md.none), *cases))
-
-
 def uniqueness_clauses(M):
     rfc = "resolved_full_cites"
     n = f"len({rfc})"
